@@ -11,6 +11,9 @@
   Known finding D18: `threadsafe_event_trigger` opens a pipe nobody closes.  `C12_full_statement` (all bodies) is
   therefore false (`C12_D18_witness`); `C12_restore_partial` carries the complementary hypothesis `NoLeak body`
   (no `mkThreadsafeTrigger` anywhere in the body).
+  Known finding D36: `render_to_terminal` of a window with hide_cursor=False writes hide_cursor first and
+  normal_cursor last; an exception at a write in between leaves the cursor hidden and `__exit__` only shows it
+  `if self.hide_cursor`.  `C12_D36_witness`; `C12_restore_partial` carries `NoCrash body`.
   Known finding D26: a FullscreenWindow entered and left INSIDE another one switches the terminal back to the main
   screen while the outer window is still active (ESC[?1049l does not nest), so later renders land on the main
   screen.  `C12_main_screen_full_statement` is false (`C12_D26_witness`); `C12_main_screen_partial` carries the
@@ -41,6 +44,17 @@ def NoLeak : Body A → Prop
 
 def isEnvOp : Op → Bool
   | .envTty _ => true | .envFl _ => true | .envSigint _ => true | _ => false
+
+def isCrashOp : Op → Bool
+  | .renderCrash _ => true | _ => false
+
+/-- no render is cut short by a failing write (complement of D36's footprint, conservatively: D36 needs the window
+    to have hide_cursor=False and the failing write not to be the first) -/
+def NoCrash : Body A → Prop
+  | .done => True
+  | .raise => True
+  | .op o rest => isCrashOp o = false ∧ NoCrash rest
+  | .nest _ inner rest => NoCrash inner ∧ NoCrash rest
 
 /-- nobody else changes the tty attributes, status flags or SIGINT handler while the context is active (environment
     steps are meant for the gap BETWEEN two uses of a context manager: `C12_reuse`) -/
@@ -76,9 +90,10 @@ private theorem write_restored (w : World A) : Restored w (write w) := by
 
 private theorem doOp_restored (T : TtyOps A) (main : Bool) (stack : List (Ctx A × Saved A)) (o : Op) (w : World A)
     (h : o ≠ .mkThreadsafeTrigger)
-    (he : isEnvOp o = false) :
+    (he : isEnvOp o = false) (hc : isCrashOp o = false) :
     Restored w (doOp T main stack o w).1 := by
   cases o with
+  | renderCrash k => exact absurd hc (by simp [isCrashOp])
   | envTty k => exact absurd he (by simp [isEnvOp])
   | envFl k => exact absurd he (by simp [isEnvOp])
   | envSigint hh => exact absurd he (by simp [isEnvOp])
@@ -117,26 +132,26 @@ private theorem enter_exit_restored (T : TtyOps A) (main : Bool) (c : Ctx A) (w 
 
 /-- the general statement, for bodies at any nesting depth -/
 theorem run_restored (T : TtyOps A) (main : Bool) (body : Body A) :
-    ∀ (stack : List (Ctx A × Saved A)) (w : World A), NoLeak body → NoEnv body →
+    ∀ (stack : List (Ctx A × Saved A)) (w : World A), NoLeak body → NoEnv body → NoCrash body →
       Restored w (run T main body stack w).2.1 := by
   induction body with
-  | done => intro _ w _ _; exact Restored.refl w
-  | raise => intro _ w _ _; exact Restored.refl w
+  | done => intro _ w _ _ _; exact Restored.refl w
+  | raise => intro _ w _ _ _; exact Restored.refl w
   | op o rest ih =>
-    intro stack w hn he
-    have h1 := doOp_restored T main stack o w hn.1 he.1
+    intro stack w hn he hc
+    have h1 := doOp_restored T main stack o w hn.1 he.1 hc.1
     simp only [run]
     split
     · exact h1
-    · exact h1.trans (ih stack _ hn.2 he.2)
+    · exact h1.trans (ih stack _ hn.2 he.2 hc.2)
   | nest c inner rest ih1 ih2 =>
-    intro stack w hn he
-    have hin := ih1 ((c, (enter T main c w).1) :: stack) (enter T main c w).2 hn.1 he.1
+    intro stack w hn he hc
+    have hin := ih1 ((c, (enter T main c w).1) :: stack) (enter T main c w).2 hn.1 he.1 hc.1
     have h3 := enter_exit_restored T main c w _ hin
     simp only [run]
     split
     · exact h3
-    · exact h3.trans (ih2 stack _ hn.2 he.2)
+    · exact h3.trans (ih2 stack _ hn.2 he.2 hc.2)
 
 /-- The property at full strength: `with c: body` restores, for every body. FALSE because of D18. -/
 def C12_full_statement : Prop :=
@@ -149,23 +164,23 @@ def C12_full_statement : Prop :=
     alternate screen active; for every flag combination, both threads, every initial state, every nesting.
     Hypothesis = complement of D18: the body creates no thread-safe trigger. -/
 theorem C12_restore_partial (T : TtyOps A) (main : Bool) (c : Ctx A) (body : Body A) (w : World A)
-    (h : NoLeak body) (he : NoEnv body) : Restored w (withCtx T main c body w).2.1 := by
+    (h : NoLeak body) (he : NoEnv body) (hc : NoCrash body) : Restored w (withCtx T main c body w).2.1 := by
   unfold withCtx
-  exact run_restored T main (.nest c body .done) [] w ⟨h, trivial⟩ ⟨he, trivial⟩
+  exact run_restored T main (.nest c body .done) [] w ⟨h, trivial⟩ ⟨he, trivial⟩ ⟨hc, trivial⟩
 
 /-- Re-using ONE context-manager object: use it (`b1`), let the environment change the terminal / flags / handler
     (`e`, any operation - typically `envTty`, `envFl`, `envSigint`), use the same object again (`b2`).  The second
     exit restores the world as it was at the SECOND entry (after the environment's change), not the one captured at
     the first entry; and the first exit restored the world of the first entry. -/
 theorem C12_reuse (T : TtyOps A) (main : Bool) (c : Ctx A) (b1 b2 : Body A) (e : Op) (w : World A)
-    (h1 : NoLeak b1) (e1 : NoEnv b1) (h2 : NoLeak b2) (e2 : NoEnv b2)
+    (h1 : NoLeak b1) (e1 : NoEnv b1) (c1 : NoCrash b1) (h2 : NoLeak b2) (e2 : NoEnv b2) (c2 : NoCrash b2)
     (hr : (withCtx T main c b1 w).2.2 = false)
     (he : (doOp T main [] e (withCtx T main c b1 w).2.1).2 = false) :
     let w1 := (withCtx T main c b1 w).2.1
     let w2 := (doOp T main [] e w1).1
     (run T main (.nest c b1 (.op e (.nest c b2 .done))) [] w).2.1 = (withCtx T main c b2 w2).2.1 ∧
       Restored w w1 ∧ Restored w2 (withCtx T main c b2 w2).2.1 := by
-  refine ⟨?_, C12_restore_partial T main c b1 w h1 e1, C12_restore_partial T main c b2 _ h2 e2⟩
+  refine ⟨?_, C12_restore_partial T main c b1 w h1 e1 c1, C12_restore_partial T main c b2 _ h2 e2 c2⟩
   unfold withCtx at hr he ⊢
   simp only [run] at hr he ⊢
   split at hr
@@ -212,6 +227,7 @@ private theorem run_alt (T : TtyOps A) (main : Bool) (body : Body A) :
       | render => simp only [doOp]; split <;> simp [write, ha]
       | mkTrigger => exact ⟨ha, rfl⟩
       | mkThreadsafeTrigger => simp only [doOp]; split <;> simp [ha]
+      | renderCrash k => simp only [doOp]; split <;> (try split) <;> (try split) <;> simp [write, ha]
       | envTty k => simp [doOp, ha]
       | envFl k => simp [doOp, ha]
       | envSigint hh => simp [doOp, ha]
@@ -283,6 +299,16 @@ theorem C12_D18_witness :
     ¬ C12_full_statement := by
   refine ⟨by decide, fun h => ?_⟩
   have := (h Unit unitOps true (.input ⟨false, false⟩) (.op .mkThreadsafeTrigger .done) w0).fds
+  exact absurd this (by decide)
+
+/-- D36 on the model: `with FullscreenWindow(hide_cursor=False) as w: w.render_to_terminal(...)` where the second
+    write of the render raises: hide_cursor was written, normal_cursor never is, `__exit__` does not show the cursor
+    because hide_cursor is False - the cursor stays hidden. (script `(F0 R1 )`) -/
+theorem C12_D36_witness :
+    (withCtx unitOps true (.fullscreen false) (.op (.renderCrash 1) .done) w0).2.1.cursorVisible = false ∧
+    ¬ C12_full_statement := by
+  refine ⟨by decide, fun h => ?_⟩
+  have := (h Unit unitOps true (.fullscreen false) (.op (.renderCrash 1) .done) w0).cursor rfl
   exact absurd this (by decide)
 
 /-- D26 on the model, nested FullscreenWindows: the outer window's render after the inner one was left lands on the
